@@ -262,6 +262,10 @@ func checkCmd(args []string) int {
 			default:
 				if ok, detail := eng.CompareObserved(o.reachJob, no); !ok {
 					fmt.Printf("INCONCLUSIVE %s: formula and native build disagree: %s\n", name, detail)
+					if os.Getenv("GSX_DEBUG") != "" {
+						jb, _ := json.MarshalIndent(o.reachJob, "", " ")
+						os.WriteFile(fmt.Sprintf("/tmp/reachfail_%s.json", sanitize(name)), jb, 0o644)
+					}
 					if *verbose {
 						fmt.Printf("   inputs: %v\n   predicted: %v\n   native: %v\n   failures: %v\n", o.reachJob.Inputs, o.reachJob.Predicted, no.Observed, no.Failures)
 					}
@@ -439,7 +443,7 @@ func confirms(job *eng.ReplayJob, no *eng.ReplayOut) (bool, string) {
 			return false, "native run panicked instead: " + no.Panic
 		}
 		return false, fmt.Sprintf("native failures: %v", no.Failures)
-	case "deadlock":
+	case "deadlock", "blocked":
 		if no.Deadlock {
 			return true, "native run deadlocked under the model's schedule"
 		}
